@@ -235,6 +235,11 @@ func outbound(r rowT, h *hub.Hub) resT {
 		victimSki = old
 	case "other":
 		present, _ = forge(20, "ownKey")
+	case "otherPaired":
+		var ski []byte
+		present, ski = forge(20, "ownKey")
+		h.RegisterRemoteSKI(hex.EncodeToString(ski))
+		defer h.UnregisterRemoteSKI(hex.EncodeToString(ski))
 	case "absent":
 		present, _ = forge(0, "ownKey")
 	case "ownLen":
